@@ -75,15 +75,18 @@ def error_msg(
     display_col = col
 
     if col_length:
-        if "\n" in string:
-            line += string.count("\n")
-            col = length - string.rfind("\n")
+        if token is not None:
+            # right after the last character of the token's source text
+            line, col = token.end
         else:
             col += length
         display_col += 1
 
     if display_col_length:
-        if "\n" in string:
+        if col_length:
+            display_line = line
+            display_col = col + 1
+        elif "\n" in string:
             display_line += string.count("\n")
             display_col = length - string.rfind("\n") + 1
         else:
